@@ -1267,23 +1267,28 @@ class Timezone(Component):
         # dstoffset = 0, if current transition is to standard time
         #           = this_utcoffset - prev_standard_utcoffset, otherwise
         transition_info = []
+        # utcoffset of the next transition to standard time at or after
+        # each index, computed once instead of searching for every transition
+        next_standard = [None] * (len(transitions) + 1)
+        for index in range(len(transitions) - 1, -1, -1):
+            if not dst[transitions[index][3]]:  # [3] is the name
+                next_standard[index] = transitions[index][2]  # [2] is osto
+            else:
+                next_standard[index] = next_standard[index + 1]
+        previous_standard = None
         for num, (transtime, osfrom, osto, name) in enumerate(transitions):
             dst_offset = False
             if not dst[name]:
                 dst_offset = timedelta(seconds=0)
+                previous_standard = osto
             else:
-                # go back in time until we find a transition to dst
-                for index in range(num - 1, -1, -1):
-                    if not dst[transitions[index][3]]:  # [3] is the name
-                        dst_offset = osto - transitions[index][2]  # [2] is osto  # noqa
-                        break
+                # the latest transition to standard time in the past
+                if previous_standard is not None:
+                    dst_offset = osto - previous_standard
                 # when the first transition is to dst, we didn't find anything
                 # in the past, so we have to look into the future
-                if not dst_offset:
-                    for index in range(num, len(transitions)):
-                        if not dst[transitions[index][3]]:  # [3] is the name
-                            dst_offset = osto - transitions[index][2]  # [2] is osto  # noqa
-                            break
+                if not dst_offset and next_standard[num] is not None:
+                    dst_offset = osto - next_standard[num]
             if dst_offset is False:
                 # not an assert statement: python -O must not switch this off
                 raise AssertionError(
